@@ -5,7 +5,7 @@
 From CV Require Import Base.Bytes Base.Glob Supp.Defs Par.Gen_Severity Par.Defs Par.DecProofs
                        Par.CodecProofs Par.MergeProofs.
 From CV Require Import Par.SupprWire Par.SupprWireProofs.
-From CV Require Supp.ExecDefs Supp.ExecProofs Supp.ThreadProofs Par.EqSingle Par.EqProcess Par.EqWitness.
+From CV Require Supp.ListProofs Supp.ExecDefs Supp.ExecProofs Supp.ThreadProofs Par.EqSingle Par.EqProcess Par.EqWitness Par.EqSchedule.
 Require Import Permutation.
 
 (* the receiving side holds the sender's message with fixInvalidChars applied to
@@ -155,7 +155,7 @@ Proof. exact ws_ok_inhabited. Qed.
    logger, hasToLog, state transfer, whole-program findings through the main logger,
    unmatched-suppression reports, final status) *)
 Module EQ.
-Import Supp.ExecDefs Supp.ExecProofs Supp.ThreadProofs Par.EqSingle Par.EqProcess Par.EqWitness.
+Import Supp.ListProofs Supp.ExecDefs Supp.ExecProofs Supp.ThreadProofs Par.EqSingle Par.EqProcess Par.EqWitness Par.EqSchedule.
 
 (* the same set of texts reaches the output (StdLogger prints each text once), thread and process *)
 Theorem C15_parallel_reported_eq_single pm k cfg n f fs wp o1 o2 :
@@ -191,6 +191,18 @@ Theorem C15_parallel_eq_single_process pm cfg n f fs wp o1 o2 :
   /\ o_unmatched o2 = o_unmatched o1 /\ o_status o2 = o_status o1 /\ o_nomsg o2 = o_nomsg o1.
 Proof. exact (process_eq_single pm cfg n f fs wp o1 o2). Qed.
 Print Assumptions C15_parallel_eq_single_process.
+
+(* every schedule: whatever interleaving of the workers' forwarded streams reaches the parent's
+   filter (Par.Defs.log_run = Executor::hasToLog over an arrival order), the texts it lets through
+   are exactly those the single executor reports for the files *)
+Theorem C15_any_schedule_reported_eq_single pm n fs r s out :
+  Par.MergeProofs.interleave (worker_streams pm n fs) r ->
+  Par.Defs.log_run pm false (Par.Defs.mkH n []) r = Some (s, out) ->
+  Forall macro_local n ->
+  forall t, In t (map Par.Defs.p_text out) <->
+            In t (map snd (flat_map (fun x => pick (spec_forward pm true n [] (f_msgs x)) (f_msgs x)) fs)).
+Proof. exact (any_schedule_reported_eq_single pm n fs r s out). Qed.
+Print Assumptions C15_any_schedule_reported_eq_single.
 
 (* texts_ok is necessary for the unmatched-suppression reports (replays on the binary) *)
 Theorem C15_texts_ok_necessary_refuted :
